@@ -49,51 +49,74 @@ pub fn decode_nat<R>(r: &mut R) -> Result<u128>
 where
     R: io::Read + ?Sized,
 {
-    let mut result = 0;
-    let mut shift = 0;
+    const BITS: u32 = u128::BITS;
+    let mut result: u128 = 0;
+    let mut shift: u32 = 0;
     loop {
         let mut buf = [0];
         r.read_exact(&mut buf)?;
-        if shift == 127 && buf[0] != 0x00 && buf[0] != 0x01 {
+        let low_bits = (buf[0] & !CONTINUATION_BIT) as u128;
+        // Groups that start at or beyond bit 128 can only be zero padding; the group
+        // that straddles bit 128 may only carry the bits that still fit.
+        let fits = if shift >= BITS {
+            low_bits == 0
+        } else if shift > BITS - 7 {
+            low_bits >> (BITS - shift) == 0
+        } else {
+            true
+        };
+        if !fits {
             while buf[0] & CONTINUATION_BIT != 0 {
                 r.read_exact(&mut buf)?;
             }
             return Err(Error::msg("nat overflow"));
         }
-        let low_bits = (buf[0] & !CONTINUATION_BIT) as u128;
-        result |= low_bits << shift;
+        if shift < BITS {
+            result |= low_bits << shift;
+            shift += 7;
+        }
         if buf[0] & CONTINUATION_BIT == 0 {
             return Ok(result);
         }
-        shift += 7;
     }
 }
 pub fn decode_int<R>(r: &mut R) -> Result<i128>
 where
     R: io::Read + ?Sized,
 {
-    let mut result = 0;
-    let mut shift = 0;
-    let size = 128;
+    const BITS: u32 = i128::BITS;
+    let mut result: i128 = 0;
+    let mut shift: u32 = 0;
     let mut byte;
     loop {
         let mut buf = [0];
         r.read_exact(&mut buf)?;
         byte = buf[0];
-        if shift == 127 && byte != 0x00 && byte != 0x7f {
+        let low_bits = (byte & !CONTINUATION_BIT) as i128;
+        // Bits at or beyond position 127 must all repeat the sign bit.
+        let fits = if shift >= BITS {
+            low_bits == if result < 0 { 0x7f } else { 0x00 }
+        } else if shift > BITS - 7 {
+            let sign_ext = low_bits >> (BITS - 1 - shift);
+            sign_ext == 0 || sign_ext == 0x7f >> (BITS - 1 - shift)
+        } else {
+            true
+        };
+        if !fits {
             while buf[0] & CONTINUATION_BIT != 0 {
                 r.read_exact(&mut buf)?;
             }
             return Err(Error::msg("int overflow"));
         }
-        let low_bits = (byte & !CONTINUATION_BIT) as i128;
-        result |= low_bits << shift;
-        shift += 7;
+        if shift < BITS {
+            result |= low_bits << shift;
+            shift += 7;
+        }
         if byte & CONTINUATION_BIT == 0 {
             break;
         }
     }
-    if shift < size && (byte & SIGN_BIT) == SIGN_BIT {
+    if shift < BITS && (byte & SIGN_BIT) == SIGN_BIT {
         result |= !0 << shift;
     }
     Ok(result)
